@@ -2,7 +2,7 @@
 From PNC Require Export Base.Util Base.Words Model.Uamiv.
 Local Open Scope Z_scope.
 
-Record case_t := Case {
+Record ucase := Case {
   c_u : uamiv;                         (* the generated content *)
   c_hours : list (Z * Z);              (* begin / end hour of each step as integers *)
   c_ref : list word;                   (* file produced by the Python reference encoder *)
@@ -35,11 +35,11 @@ Definition uamiv_eqb (a b : uamiv) : bool :=
 Definition bdates (u : uamiv) := map (fun st => nth 0 (fst st) 0) (u_steps u).
 Definition edates (u : uamiv) := map (fun st => nth 2 (fst st) 0) (u_steps u).
 
-Definition whole (c : case_t) : bool := c_cut c =? 4 * Z.of_nat (length (c_ref c)).
-Definition given (c : case_t) : list word := firstn (Z.to_nat (c_cut c / 4)) (c_ref c).
+Definition whole (c : ucase) : bool := c_cut c =? 4 * Z.of_nat (length (c_ref c)).
+Definition given (c : ucase) : list word := firstn (Z.to_nat (c_cut c / 4)) (c_ref c).
 
 (* F: the Python reference encoder is the Coq spec encoder; the reader model predicts the library *)
-Definition checkF (c : case_t) : bool :=
+Definition checkF (c : ucase) : bool :=
   zlist_eqb (enc (c_u c)) (c_ref c)
   && match mm_read (given c) (c_cut c) with
      | Ok v => c_open_ok c && view_eqb v (c_view c)
@@ -53,7 +53,7 @@ Definition checkF (c : case_t) : bool :=
 (* S, whole file: library reader presents exactly the encoded content (direction 2) and the
    reference decoder recovers exactly the content from the library writer's output (direction 1).
    S, cut file (C14): error, or exactly k complete steps identical to the full file's. *)
-Definition checkS (c : case_t) : bool :=
+Definition checkS (c : ucase) : bool :=
   if whole c then
     c_open_ok c && view_eqb (c_view c) (view_of (c_u c))
     && list_eqb pair_eqb (c_tflag c) (spec_camx_time (bdates (c_u c)) (map fst (c_hours c)))
@@ -67,5 +67,22 @@ Definition checkS (c : case_t) : bool :=
         && list_eqb pair_eqb (c_tflag c) (firstn k (spec_camx_time (bdates (c_u c)) (map fst (c_hours c))))
         && list_eqb pair_eqb (c_etflag c) (firstn k (spec_camx_time (edates (c_u c)) (map snd (c_hours c))))).
 
-Definition region (c : case_t) : nat := 0%nat.
-Definition check (c : case_t) : verdict := (checkF c, checkS c, region c).
+Definition region (c : ucase) : nat := 0%nat.
+
+(* Second kind of case, for every record-structured format: `recs` are the record payloads the
+   reference encoder (harness/camxfmt.py, written from the format description) produced for the content,
+   `ref` its byte stream, `written` what the LIBRARY writer produced from the file the library reader
+   opened.  F: the Python framing is the Coq framing.  S: the Coq reference decoder walks the library
+   writer's output (markers agree and tile the file exactly) and recovers exactly the records. *)
+Inductive case_t :=
+| U (c : ucase)
+| R (ref : list word) (recs : list (list word)) (w_ok : bool) (written : list word).
+
+Definition check (c : case_t) : verdict :=
+  match c with
+  | U c => (checkF c, checkS c, region c)
+  | R ref recs w_ok written =>
+      (zlist_eqb (frame recs) ref,
+       if w_ok then match unframe_all written with Some rs => zll_eqb rs recs | None => false end else true,
+       0%nat)
+  end.
